@@ -29,7 +29,8 @@ EXPLANATION = (
     "accepted language with the ISO grammar, exact values, string escapes."
     " (R8) a linear search whose loop condition is `i < B && <no match>` and the later not-found test on i use the same bound expression B (SDAI_Enum / SDAI_LOGICAL ReadEnum and set_value, STEPcomplex::Replicate): otherwise an unknown token is silently read as the entry at the last index."
     " (R9) no branch is decided by a look-ahead variable (`c = in.peek()`) after something was consumed from the same stream and before the variable was assigned again (typestate over flag-consistent paths)."
-    " (R10) every sprintf/snprintf of integer conversions into a local scratch array has room for the longest rendering of the conversion's type plus the terminator (21 bytes for %ld): no integer is written cut to a shorter, well-formed one.")
+    " (R10) every sprintf/snprintf of integer conversions into a local scratch array has room for the longest rendering of the conversion's type plus the terminator (21 bytes for %ld): no integer is written cut to a shorter, well-formed one."
+    " (R11) every literal reader with the (value, stream, descriptor, tokenList) signature skips leading white space itself (`in >> ws` is its first stream operation on every path): the skipws flag of the stream is left off by SDAI_String::STEPread.")
 
 READERS = {"ReadInteger": "integer", "ReadReal": "real", "ReadNumber": "number"}
 
@@ -588,6 +589,67 @@ def r10_integer_buffer_fits(prog, res):
     res.floor("R10.integer_buffer_fits", "integer conversions into local scratch buffers", n, 5)
 
 
+def r11_literal_readers_skip_ws(prog, res):
+    """The readers of numeric literals (`Read*( T & val, istream & in, ErrorDescriptor * err, const char * tokenList )`) are called on
+    streams whose `skipws` flag cannot be relied on: SDAI_String::STEPread switches it off and restores it only when it read nothing,
+    so after the first string of a file it stays off.  Each of these readers therefore skips leading white space itself: the first
+    operation on the stream, on every path, is `in >> ws`.  Without it `(4,1,\n 1, 4)` loses its third element (`in >> i` fails on the
+    blank) once any string has been read from the stream - not visible when the reader is tried on a fresh stream."""
+    import stuckstream
+    n = 0
+    for f in prog.all_functions():
+        if f.component == "test" or f.cfg is None or len(f.params) < 4:
+            continue
+        tys = [f.tyname(p_["t"]) if isinstance(p_.get("t"), int) else "" for p_ in f.params]
+        if not (re.match(r"^Read[A-Z]", f.name) and "istream" in tys[1] and "ErrorDescriptor" in tys[2] and "char" in tys[3] and "&" in tys[0]):
+            continue
+        S = f.params[1]["d"]
+
+        def is_ws(nd):
+            if nd["k"] != "Call" or not (nd.get("opcall") == ">>" or (nd.get("fn") or "").endswith("operator>>")) or len(nd.get("ch") or []) < 2:
+                return False
+            t = strip(nd["ch"][1])
+            return t is not None and t.get("n") == "ws" and stuckstream.stream_of(f, nd["ch"][0]) == S
+
+        def is_streamop(nd):
+            if nd["k"] != "Call" or not nd.get("ch"):
+                return False
+            short = (nd.get("fn") or "").split("::")[-1]
+            if not (nd.get("opcall") == ">>" or short in ("operator>>", "get", "peek", "ignore", "read", "getline", "putback")):
+                return False
+            return stuckstream.stream_of(f, nd["ch"][0]) == S
+        # walk from the entry: the first stream operation met on each path must be `>> ws`
+        cfg = f.cfg
+        seen = set()
+        work = [cfg.entry]
+        bad = None
+        while work and bad is None:
+            b = work.pop()
+            if b in seen:
+                continue
+            seen.add(b)
+            stop = False
+            for e in cfg.blocks[b]["e"]:
+                nd = f.nodes.get(e)
+                if nd is None:
+                    continue
+                if is_ws(nd):
+                    stop = True
+                    break
+                if is_streamop(nd):
+                    bad = nd
+                    stop = True
+                    break
+            if not stop:
+                work.extend(s2 for s2 in cfg.succ[b])
+        n += 1
+        res.add("R11.literal_reader_skips_ws", "R11|%s|%s" % (f.relfile(), f.name), f.where(bad) if bad else f.where(), bad is None,
+                "%s skips leading white space itself before anything else is read from the stream" % f.name if bad is None else
+                "%s starts with `%s`, relying on the stream's skipws flag: SDAI_String::STEPread leaves that flag off after the first string of "
+                "a file, so a blank or line break in front of the literal makes the conversion fail" % (f.name, expr_str(bad)[:40]))
+    res.floor("R11.literal_reader_skips_ws", "literal readers with the (val, in, err, tokenList) signature", n, 3)
+
+
 def run(prog, res, tier):
     sev = sev_enum(prog)
     if sev is None:
@@ -602,3 +664,4 @@ def run(prog, res, tier):
     r8_search_bound_agrees(prog, res)
     r9_lookahead_not_stale(prog, res)
     r10_integer_buffer_fits(prog, res)
+    r11_literal_readers_skip_ws(prog, res)
